@@ -53,15 +53,16 @@ fn main() {
         use bacon_sci::ivp::adams::{Adams3, Adams5};
         fn g(t: f64) -> f64 { (1.3 * t).cos() + 0.5 * t }
         fn gd(t: f64, _y: &[f64], _: &mut ()) -> Result<BSVector<f64, 1>, UserError> { Ok(BSVector::from_column_slice(&[g(t)])) }
-        for order in [3usize, 5] {
+        // (dt_max, tol): the second configuration forces rejected trials (roll-back after the start-up, step-size changes)
+        for (order, dtmax, atol) in [(3usize, 0.05, 1e-3), (5, 0.05, 1e-3), (3, 0.4, 1e-8), (5, 0.4, 1e-8)] {
             let path = if order == 5 {
-                Adams5::new().unwrap().with_maximum_dt(0.05).unwrap().with_minimum_dt(1e-7).unwrap().with_tolerance(1e-3).unwrap().with_initial_time(0.0).unwrap()
+                Adams5::new().unwrap().with_maximum_dt(dtmax).unwrap().with_minimum_dt(1e-7).unwrap().with_tolerance(atol).unwrap().with_initial_time(0.0).unwrap()
                     .with_ending_time(1.02).unwrap().with_initial_conditions_slice(&[0.25]).unwrap().with_derivative(gd).solve(()).unwrap().collect_vec()
             } else {
-                Adams3::new().unwrap().with_maximum_dt(0.05).unwrap().with_minimum_dt(1e-7).unwrap().with_tolerance(1e-3).unwrap().with_initial_time(0.0).unwrap()
+                Adams3::new().unwrap().with_maximum_dt(dtmax).unwrap().with_minimum_dt(1e-7).unwrap().with_tolerance(atol).unwrap().with_initial_time(0.0).unwrap()
                     .with_ending_time(1.02).unwrap().with_initial_conditions_slice(&[0.25]).unwrap().with_derivative(gd).solve(()).unwrap().collect_vec()
             };
-            let name = format!("Adams{order}");
+            let name = format!("Adams{order}(dt_max={dtmax}, tol={atol:e})");
             let path = match path { Ok(p) => p, Err(e) => { found.push(format!("{name}: solve failed: {e:?}")); continue; } };
             let am: &[f64] = if order == 5 { &[251.0 / 720.0, 646.0 / 720.0, -264.0 / 720.0, 106.0 / 720.0, -19.0 / 720.0] } else { &[5.0 / 12.0, 8.0 / 12.0, -1.0 / 12.0] };
             let mut pts: Vec<(f64, f64)> = vec![(0.0, 0.25)];
@@ -75,6 +76,38 @@ fn main() {
                 let spaced = pts.len() >= order - 1 && (1..order - 1).all(|j| ((pts[pts.len() - j].0 - pts[pts.len() - 1 - j].0) - h).abs() < 1e-9);
                 let ok = (rk4 - yn[0]).abs() < 1e-11 || (spaced && (amv - yn[0]).abs() < 1e-11);
                 if !ok { found.push(format!("{name}: point {k} at t={tn} (h={h:.6}) is neither an RK4 step ({:e} off) nor the Adams-Moulton update of the preceding equally spaced points ({:e} off)", (rk4 - yn[0]).abs(), (amv - yn[0]).abs())); break; }
+                pts.push((*tn, yn[0]));
+            }
+        }
+    }
+    // ---- BDF: y' = g(t): every yielded point is an RK4 step or satisfies the implicit BDF formula of the advertised order at the NEW time
+    {
+        use bacon_sci::ivp::bdf::{BDF2, BDF6};
+        fn g(t: f64) -> f64 { (1.3 * t).cos() + 0.5 * t }
+        fn gd(t: f64, _y: &[f64], _: &mut ()) -> Result<BSVector<f64, 1>, UserError> { Ok(BSVector::from_column_slice(&[g(t)])) }
+        for k in [2usize, 6] {
+            let tol = 1e-4;
+            let path = if k == 6 {
+                BDF6::new().unwrap().with_maximum_dt(0.05).unwrap().with_minimum_dt(1e-7).unwrap().with_tolerance(tol).unwrap().with_initial_time(0.0).unwrap()
+                    .with_ending_time(1.02).unwrap().with_initial_conditions_slice(&[0.25]).unwrap().with_derivative(gd).solve(()).unwrap().collect_vec()
+            } else {
+                BDF2::new().unwrap().with_maximum_dt(0.05).unwrap().with_minimum_dt(1e-7).unwrap().with_tolerance(tol).unwrap().with_initial_time(0.0).unwrap()
+                    .with_ending_time(1.02).unwrap().with_initial_conditions_slice(&[0.25]).unwrap().with_derivative(gd).solve(()).unwrap().collect_vec()
+            };
+            let name = format!("BDF{k}");
+            let path = match path { Ok(p) => p, Err(e) => { found.push(format!("{name}: solve failed: {e:?}")); continue; } };
+            if path.is_empty() { found.push(format!("{name}: Ok but EMPTY path")); continue; }
+            // y_{n+1} + a_1 y_n + ... + a_k y_{n+1-k} = b h f(t_{n+1})
+            let (b, a): (f64, Vec<f64>) = if k == 6 { (60.0 / 147.0, vec![-360.0 / 147.0, 450.0 / 147.0, -400.0 / 147.0, 225.0 / 147.0, -72.0 / 147.0, 10.0 / 147.0]) } else { (2.0 / 3.0, vec![-4.0 / 3.0, 1.0 / 3.0]) };
+            let mut pts: Vec<(f64, f64)> = vec![(0.0, 0.25)];
+            for (i, (tn, yn)) in path.iter().enumerate() {
+                let (t, y) = *pts.last().unwrap(); let h = tn - t;
+                let rk4 = y + h / 6.0 * (g(t) + 4.0 * g(t + 0.5 * h) + g(t + h));
+                let spaced = pts.len() >= k && (1..k).all(|j| ((pts[pts.len() - j].0 - pts[pts.len() - 1 - j].0) - h).abs() < 1e-9);
+                let mut res = f64::INFINITY;
+                if spaced { res = yn[0] - b * h * g(*tn); for j in 1..=k { res += a[j - 1] * pts[pts.len() - j].1; } }
+                let ok = (rk4 - yn[0]).abs() < 1e-11 || res.abs() <= 2.0 * tol;
+                if !ok { found.push(format!("{name}: point {i} at t={tn} (h={h:.6}) is neither an RK4 step ({:e} off) nor a solution of the BDF{k} formula at the new time (residual {:e}, tol {tol:e})", (rk4 - yn[0]).abs(), res.abs())); break; }
                 pts.push((*tn, yn[0]));
             }
         }
